@@ -142,6 +142,13 @@ func (w *Writer) Write(v any) {
 	w.mu.Unlock()
 }
 
+// Flush pushes buffered lines to the file (drivers call it after each scenario so that a watchdog kill loses nothing).
+func (w *Writer) Flush() {
+	w.mu.Lock()
+	_ = w.w.Flush()
+	w.mu.Unlock()
+}
+
 func (w *Writer) Count() int { w.mu.Lock(); defer w.mu.Unlock(); return w.n }
 
 func (w *Writer) Close() error {
